@@ -329,6 +329,10 @@ def is_transparent(cal):
         return True
     if cal in TRANSPARENT_CALLS:
         return True
+    import re as _re
+    if _re.match(r'^<[iu](8|16|32|64|128|size) as core::convert::From<([iu](8|16|32|64|128|size)|bool|char)>>::from$', cal) or \
+            _re.match(r'^core::convert::num::<impl core::convert::From<[iu]\w+> for [iu]\w+>::from$', cal):
+        return True         # lossless integer widening: the value is unchanged
     # Vec::from / String::from resolved to their impls
     if cal.endswith('>::from') and ('alloc::vec::Vec' in cal.split(' as ')[0] or 'alloc::string::String' in cal.split(' as ')[0]) and 'ldap3' not in cal and 'lber' not in cal:
         return True
